@@ -93,9 +93,9 @@ def axioms_probe(modules: list[str], theorems: list[str], workdir: str) -> dict[
     p = subprocess.run(["lean", path], capture_output=True, text=True, env=env, timeout=900)
     out: dict[str, list[str]] = {}
     text = p.stdout + p.stderr
-    for m in re.finditer(r"'([^']+)' depends on axioms: \[([^\]]*)\]", text, re.S):
+    for m in re.finditer(r"^'(\S+)' depends on axioms: \[([^\]]*)\]", text, re.S | re.M):
         out[m.group(1)] = [a.strip() for a in m.group(2).replace("\n", " ").split(",") if a.strip()]
-    for m in re.finditer(r"'([^']+)' does not depend on any axioms", text):
+    for m in re.finditer(r"^'(\S+)' does not depend on any axioms", text, re.M):
         out[m.group(1)] = []
     for t in theorems:
         if t not in out:
@@ -173,6 +173,23 @@ def run_check(pid: str, tier: str, seed: int) -> int:
             not_generated.append(f"{m.module}.{m.qualname}: {m.error}")
     cov["functions_under_contract"] = fn_rows
     cov["extraction_failures"] = not_generated
+    # frame obligations (DESIGN.md §2.1, C12/C14): the set of mutated parameters, written globals and external state
+    # (random, clock, igraph, float parsing) of every function under contract equals the recorded frame
+    expected_frames = json.load(open(os.path.join(VERIF, "vlib", "frames.json")))
+    frame_obl, frame_ok, frame_fail = [], [], []
+    for key in spec["functions"]:
+        m = ex.metas.get(key)
+        if m is None or m.error:
+            continue
+        name = f"{m.module}.{m.qualname}"
+        now = {"mutated_parameters": m.mutated_params, "globals_written": m.globals_written, "external_state": m.external_state,
+               "uses_fuel": m.uses_fuel, "uses_rng": m.uses_rng, "is_generator": m.is_generator}
+        frame_obl.append("frame." + name)
+        if expected_frames.get(name) == now:
+            frame_ok.append("frame." + name)
+        else:
+            frame_fail.append({"module": "<extractor frame analysis>", "obligations": ["frame." + name],
+                               "lean_output": f"frame of {name} changed: recorded {expected_frames.get(name)} now {now}"})
 
     # 2. Lean obligations
     lean_mods = [registry.LEAN[k] for k in spec.get("lean", [])]
@@ -209,6 +226,9 @@ def run_check(pid: str, tier: str, seed: int) -> int:
     scan = source_scan(lean_mods) if lean_mods else []
     if scan:
         status["broken"].append("forbidden constructs in Lean sources: " + "; ".join(scan[:5]))
+    lean_fail_detail += frame_fail
+    obligations += frame_obl
+    discharged += frame_ok
     if not_generated:
         lean_fail_detail.append({"module": "<extractor>", "obligations": ["extract." + x.split(":")[0] for x in not_generated],
                                  "lean_output": "obligation could not be generated: " + "; ".join(not_generated)})
@@ -223,6 +243,7 @@ def run_check(pid: str, tier: str, seed: int) -> int:
     cov["checker_cmd"] = "lean -o <olean> <module> (Lean 4.33 kernel), `#print axioms` per theorem; thorough: leanchecker"
     cov["solver_time_s"] = round(sum(v["seconds"] for v in timings.values() if not v["cached"]), 2)
     cov["trusted_base"] = ["Lean 4.33 kernel", "Mathlib", "vlib/extract.py", "lean/PyModel/*.lean"]
+    cov["frame_obligations"] = {"count": len(frame_obl), "discharged": len(frame_ok), "back_end": "extractor frame analysis (syntactic, vlib/extract.py)"}
     if lean_mods and not obligations:
         status["broken"].append("zero obligations generated")
     status["lean_failed"] = lean_fail_detail
